@@ -50,8 +50,6 @@ EXCEPTIONS = {
                                          "bdl.db.wincons, the key set IdMaps.wincons is built from [D4 checks order and propagation]"),
     "c02.ref|Window.wall": ("defaulted", "cannot fail: the same loop iteration first requires walls.iter().find(name == win.wall) to succeed (error otherwise), and the converted "
                                          "walls' names are keys of IdMaps.walls"),
-    "c02.ref|Space.loads": ("ok-flattened", "Option-typed link, deliberately None for legacy LIDER files without SPACE-CONDITIONS blocks (residual: a renamed conditions block yields None, not an error)"),
-    "c02.ref|Space.thermostat": ("ok-flattened", "Option-typed link, deliberately None for legacy LIDER files without SYSTEM-CONDITIONS blocks (same residual)"),
     "c02.id|Material": ("defaulted", "map keys of IdMaps.materials are the material names of the same bdl.db.materials entries iterated here, so the lookup cannot fail"),
 }
 
